@@ -407,7 +407,7 @@ pub fn run(ctx: &Ctx) -> Report {
     rep.assumptions.push("a string with characters its code page cannot represent is only required not to panic, to leave the stream well formed and the other properties intact".into());
     let mut st = Stats::new();
     let max_ops = ctx.tier.pick(14, 30);
-    let v = search(ctx, "summary", ctx.tier.pick(20_000, 300_000), || prop::collection::vec(sop(), 0..max_ops).prop_map(|ops| SCase { ops }), |c: &SCase, st| {
+    let v = search(ctx, "summary", ctx.tier.pick(100_000, 1_000_000), || prop::collection::vec(sop(), 0..max_ops).prop_map(|ops| SCase { ops }), |c: &SCase, st| {
         st.eval();
         if st.wants_sample() && c.ops.len() > 4 && st.evaluations % 31 == 2 {
             st.sample(json!(c));
